@@ -29,7 +29,9 @@ DF = "pandera.backends.pandas.container:DataFrameSchemaBackend"
 class CoerceDtypeHelper(Contract):
     target = f"{DF}._coerce_dtype_helper"
     raises = (SchemaErrors,)
-    split = {"schema_coerce": [True, False]}
+    # index: the schema's index is coerced after the columns - a single Index fails with ONE SchemaError (collected), a MultiIndex with
+    # SchemaErrors (its levels' errors), which the helper lets through: on THAT exit too nothing of the schema may be left changed (C05/C06)
+    split = {"schema_coerce": [True, False], "index": ["none", "single", "multi"]}
 
     def setup(self, I):
         PL.install(I)
@@ -48,14 +50,36 @@ class CoerceDtypeHelper(Contract):
             return r
 
         I.models[id(ComponentSchema.coerce_dtype)] = coerce_dtype
+        from pandera.api.dataframe.container import DataFrameSchema as _DFS
+
+        def multiindex_coerce_dtype(I, self_obj, check_obj):
+            p = cur()
+            p.ghost.setdefault("index_coerce_calls", []).append((self_obj, check_obj))
+            if p.choose([("returns", None), ("SchemaErrors", None)], "multiindex.coerce_dtype") == 1:
+                e = I.make_exc(SchemaErrors)
+                p.ghost["multiindex_errors"] = e
+                raise PyExc(e)
+            return SAny(name="coerced_multiindex")
+
+        for klass in {_DFS} | {c for c in type.mro(__import__("pandera.api.pandas.components", fromlist=["MultiIndex"]).MultiIndex) if "coerce_dtype" in c.__dict__}:
+            if "coerce_dtype" in klass.__dict__ and klass is not ComponentSchema:
+                I.models[id(klass.__dict__["coerce_dtype"])] = multiindex_coerce_dtype
 
     def make_args(self):
         from pandera.backends.pandas.container import DataFrameSchemaBackend as B
 
         cols = SymDict.fresh("schema.columns", T.Label, column_ref(regex=T.Const(False)))
-        schema = T.Ref(None, coerce=T.Const(self.fixed.get("schema_coerce", False)), dtype=T.Const(None), index=T.Const(None), name=T.Opt(T.Label)).fresh("schema")
+        schema = T.Ref(None, coerce=T.Const(self.fixed.get("schema_coerce", False)), dtype=T.Const(None), name=T.Opt(T.Label)).fresh("schema")
         schema.attrs["columns"] = cols
         schema.attrs0["columns"] = cols
+        from contracts.C05_component_restore import index_ref, multiindex_ref
+
+        kind = self.fixed.get("index", "none")
+        idx = None if kind == "none" else (index_ref().fresh("schema.index") if kind == "single" else multiindex_ref().make("schema.index") if hasattr(multiindex_ref(), "make") else None)
+        if kind == "multi" and idx is None:
+            idx = T.fresh_value(multiindex_ref(), "schema.index")
+        schema.attrs["index"] = idx
+        schema.attrs0["index"] = idx
         obj = PL.FrameVal.fresh("obj")
         obj.pre = False  # the helper is handed the working copy (ownership: C04 ContainerValidate)
         return {"self": T.Ref(B).fresh("self"), "obj": obj, "schema": schema}
@@ -109,9 +133,52 @@ class CoerceDtypeHelper(Contract):
                 if isinstance(fld(h[0], "_collected_errors"), SymSeq) else True}
 
     def on_raise(self, exc, old, self_, obj, schema):
+        if exc is cur().ghost.get("multiindex_errors"):
+            # the collected errors of the MultiIndex levels: handed on as they are (the container's parser stage collects them)
+            return {"the_multiindex_errors_pass_through_unchanged": True}
         h = [o for o in cur().objects if o.cls is ErrorHandler]
         return {"carries_exactly_the_collected_errors": len(h) == 1 and exc.attrs.get("schema_errors") is fld(h[0], "_schema_errors"),
                 "carries_the_frame": exc.attrs.get("data") is obj}
 
+
+def _helper_replay(self, rec):
+    def thunk():
+        """dataframe-level coerce=True over components that do not coerce themselves, with an uncoercible column / index level:
+        after the failing validation the schema is what it was"""
+        import copy
+        import warnings
+
+        import pandas as pd
+        import pandera as pa
+
+        warnings.simplefilter("ignore")
+        obs, bad = {}, False
+        cases = {
+            "MultiIndex level": (pa.DataFrameSchema({"a": pa.Column(int)}, coerce=True, index=pa.MultiIndex([pa.Index(int, name="i"), pa.Index(str, name="j")])),
+                                 pd.DataFrame({"a": [1]}, index=pd.MultiIndex.from_tuples([("x", "p")], names=["i", "j"]))),
+            "single Index": (pa.DataFrameSchema({"a": pa.Column(int)}, coerce=True, index=pa.Index(int, name="i")), pd.DataFrame({"a": [1]}, index=pd.Index(["x"], name="i"))),
+            "column": (pa.DataFrameSchema({"a": pa.Column(int)}, coerce=True), pd.DataFrame({"a": ["x"]})),
+        }
+        for name, (schema, df) in cases.items():
+            for lazy in (False, True):
+                snapshot = copy.deepcopy(schema)
+                try:
+                    schema.validate(df, lazy=lazy)
+                    got = "accepted"
+                except (pa.errors.SchemaError, pa.errors.SchemaErrors):
+                    got = "rejected"
+                except Exception as e:  # noqa: BLE001
+                    got = "leaked " + type(e).__name__
+                flags = {"index.coerce": getattr(schema.index, "coerce", None), "a.coerce": schema.columns["a"].coerce}
+                was = {"index.coerce": getattr(snapshot.index, "coerce", None), "a.coerce": snapshot.columns["a"].coerce}
+                if got != "rejected" or schema != snapshot or flags != was:
+                    bad = True
+                    obs[f"uncoercible {name}, lazy={lazy}"] = {"outcome": got, "coerce flags after": flags, "before": was}
+        return bad, obs or "a failed dataframe-level coercion leaves the schema as it was"
+
+    return thunk
+
+
+CoerceDtypeHelper.concretize = _helper_replay
 
 CONTRACTS = [CoerceDtypeHelper]
